@@ -11,7 +11,7 @@ MAIN = "cmd/helios"
 ENGINES = [
     dict(name="S", path="engine/shim/vrt", serves_properties=["C02", "C04", "C05", "C06", "C07", "C08", "C09", "C11", "C12", "C13", "C19"],
          kind_free_text="controlled cooperative scheduler + stateless replay DFS with preemption bounding over the real Helios code (sync/atomic/time/go/select rewritten onto shims by vgen)"),
-    dict(name="W", path="engine/shim/wire", serves_properties=["C01"],
+    dict(name="W", path="engine/shim/wire", serves_properties=["C01", "C14"],
          kind_free_text="exhaustive enumeration of finite input / configuration / fault-sequence products over real connections: raw-socket HTTP/1.1 client, scripted backends on loopback listeners, the real handler chain behind the real http.Server; differential and reference oracles on the exchanged bytes"),
     dict(name="H", path="engine/shim/vh/hrun.go", serves_properties=["C02", "C04", "C05", "C06", "C07", "C08", "C09", "C11", "C12", "C13", "C19"],
          kind_free_text="explicit-state breadth-first search over event histories of the real objects under a virtual clock, reflective state fingerprint for deduplication, reference-model / monitor oracle on every transition"),
@@ -174,6 +174,17 @@ CHECKS = {
         jobs=[
             dict(name="c01stream", part="Stream", pkg=MAIN, run="TestVerifC01Stream", mode="plain", gomaxprocs=4, shards=dict(quick=4, thorough=4), timeout=dict(quick=600, thorough=3000)),
             dict(name="c01w", part="W", pkg=MAIN, run="TestVerifC01", mode="plain", gomaxprocs=4, shards=dict(quick=8, thorough=12), timeout=dict(quick=600, thorough=3000)),
+        ],
+        assumptions=[],
+    ),
+    "C14": dict(
+        level="exploration",
+        engine="W",
+        technique="exhaustive enumeration of handler programs (every write partition x status x flush policy x framing) and uploads around the limit, exchanged over real connections with and without the plugin (differential oracle)",
+        text="For limits 1..3 (thorough 1..5) in both directions and three chain positions (alone, outermost and innermost of logging,size_limit,headers) every handler program of the product {GET, HEAD} x {implicit, 200, 201, 204, 301, 304, 404, 500} x every ordered partition into writes of bodies of L-1, L, L+1, L+3 bytes x {no flush, flush before the first write, flush after each write} x declared length is served directly under the chain built by the public BuildChain behind a real http.Server, once with and once without size_limit, and read by the raw client; within the limit the two responses must be identical (status, header multiset, body), over the limit the client gets at most L body bytes, a well-formed 413 when the first write already exceeds the limit before anything was sent. The same programs as a backend behind the real balancer and reverse proxy, and uploads of L-1, L, L+1, 4L bytes in both framings (backend reads <= L, declared oversize => 413 without contacting the backend, exactly L passes).",
+        note="Behind the reverse proxy a response of undeclared length has its header flushed by the proxy before the first body byte, so the must-be-413 clause is applied to declared-length responses there; backend accounting is attributed to exchanges by a sequence header.",
+        jobs=[
+            dict(name="c14w", part="W", pkg=MAIN, run="TestVerifC14", mode="plain", gomaxprocs=4, shards=dict(quick=12, thorough=16), timeout=dict(quick=600, thorough=3000)),
         ],
         assumptions=[],
     ),
